@@ -87,7 +87,8 @@ def r1(R):
                         not truthy_when_true
                     if not truthy and st[0] != 'sanitized':
                         # there is no previous tid to be later than
-                        return ('sanitized', frozenset({('self', '_ts')}))
+                        return ('sanitized', frozenset({('self', '_ts'),
+                                                        ('*',)}))
             return st
 
         def at(node, st, F=F, sink=sink, name=name, sinks=sinks):
@@ -112,6 +113,17 @@ def r1(R):
                     '%s uses a transaction id taken from the clock without '
                     'making it later than the previous one: if the clock '
                     'stalls or steps back, ids repeat or go backwards' % name)
+            base = val
+            while isinstance(base, (ast.Call, ast.Attribute)) and not (
+                    dotted(base) and dotted(base) in st[1]):
+                base = base.func if isinstance(base, ast.Call) else base.value
+            if not (dotted(base) and dotted(base) in st[1]) and \
+                    ('*',) not in st[1]:
+                return Violation(
+                    '%s sanitizes the clock-derived time stamp but then '
+                    'builds the transaction id from `%s`, which is not the '
+                    'sanitized value: if the clock steps back, ids go '
+                    'backwards' % (name, ast.unparse(val)))
             if sink == 'store:_tid' and ('self', '_ts') not in st[1]:
                 return Violation(
                     '%s does not record the sanitized time stamp as the new '
